@@ -70,6 +70,9 @@ func derefType(rtype reflect.Type) reflect.Type {
 }
 
 func doMatchMatches(expression *grammar.MatchExpression, value reflect.Value) (bool, error) {
+	if !value.IsValid() {
+		return false, fmt.Errorf("Value of type nil is not convertible to []byte")
+	}
 	if !value.Type().ConvertibleTo(byteSliceTyp) {
 		return false, fmt.Errorf("Value of type %s is not convertible to []byte", value.Type())
 	}
